@@ -64,6 +64,12 @@ theorem C14_source_spelling (p : Plugin)
            ∀ comp ∈ PluginSrc.splitOn '/' (PluginSrc.cutHash p.source.toList).2, comp ≠ [] ∧ comp ≠ ['.'] ∧ comp ≠ ['.', '.'])) :
     mPlugin { p with source := fullSource p.source } = mPlugin p := source_spelling p hd
 
+/-- The same for every source, documented form or not: since finding F17 was fixed in the code (commit
+    3ced888) canonicalisation is idempotent for every string (`Marshal.fullSource_idem`), so the domain
+    hypothesis of `C14_source_spelling` is not needed. -/
+theorem C14_source_spelling_any (p : Plugin) :
+    mPlugin { p with source := fullSource p.source } = mPlugin p := source_spelling_any p
+
 /-- The `env::` namespace cannot collide with an object field name, and distinct variable names
     give distinct field names: step env and pipeline env entries cannot be confused. -/
 theorem C14_env_namespace (k : String) :
